@@ -6,7 +6,7 @@ From Coq Require Import ZArith List String.
 Import ListNotations.
 From FGV Require Import Base.Util Base.Bond Base.NX Base.NXFacts Gen.PeriodicTable
   Model.Torch Spec.PeriodicRef Spec.TorchSpec Spec.TorchCheck
-  Proofs.TorchTables Proofs.TorchRound Proofs.TorchBatch Proofs.TorchInduced Proofs.TorchPrune
+  Proofs.TorchTables Proofs.TorchRound Proofs.TorchBatch Proofs.TorchInduced Proofs.TorchPrune Proofs.TorchPruneRc
   Proofs.TorchCheckSound Proofs.TorchInducedGraph Proofs.TorchMeaning Proofs.TorchEdgeGraph Proofs.TorchRefuse.
 Open Scope Z_scope.
 
@@ -145,6 +145,30 @@ Theorem C18_torch_prune_spec : forall t start radius,
   (t_ea t = None \/ exists ea, t_ea t = Some ea /\ List.length ea = List.length (t_ei t)) ->
   exists t', prune t start radius = Ok t' /\ prune_spec t start radius t'.
 Proof. exact torch_prune_ok. Qed.
+
+(* prune_rc: the start set is exactly the set of source nodes of the edge columns whose two bond components
+   differ, ascending and without repeats ... *)
+Theorem C18_prune_rc_start : forall t st,
+  rc_start_nodes t = Ok st ->
+  exists ea, t_ea t = Some ea /\ ea <> [] /\ List.length ea = List.length (t_ei t) /\
+    (forall r, In r ea -> List.length r = 2%nat) /\
+    strictly_ascending st /\ (forall v, In v st <-> rc_source t ea v).
+Proof. exact rc_start_nodes_spec. Qed.
+
+(* ... and the result is the prune result for that start set: the tensor form of the subgraph induced by the nodes
+   within [radius] steps of the reaction centre *)
+Theorem C18_torch_prune_rc_spec : forall t radius,
+  cols_in_range t ->
+  forall st, rc_start_nodes t = Ok st ->
+  exists t', prune_rc t radius = Ok t' /\ prune_spec t st radius t'.
+Proof. exact torch_prune_rc_ok. Qed.
+
+(* a sample without a changing bond has an empty reaction centre *)
+Theorem C18_prune_rc_no_change : forall t st,
+  rc_start_nodes t = Ok st ->
+  (forall ea, t_ea t = Some ea -> forall c, In c (combine (t_ei t) ea) -> nth 0 (snd c) 0 = nth 1 (snd c) 0) ->
+  st = [].
+Proof. exact rc_start_nodes_none. Qed.
 
 (** ** the checkers run on implementation outputs are sound *)
 
@@ -295,3 +319,6 @@ Proof. vm_compute. repeat split; reflexivity. Qed.
 Print Assumptions C18_to_torch_checker_sound.
 Print Assumptions C18_from_torch_checker_sound.
 Print Assumptions C18_adjacency_checker_sound.
+Print Assumptions C18_prune_rc_start.
+Print Assumptions C18_torch_prune_rc_spec.
+Print Assumptions C18_prune_rc_no_change.
